@@ -149,6 +149,27 @@ def run(ctx) -> None:
     ok = all(re.fullmatch(r"isinstance\(\w+, Instruction\)", f) for f in filters)
     ctx.check(ok, "C16.I4.filter-is-instance-test", "ObjdumpParserManual.parse", f"filters={filters}",
               "a filter applied to the parsed lines is the isinstance(elem, Instruction) test", where=src.where())
+    from ._parser import lines_parsed_independently
+    lines_parsed_independently(ctx, "C16.I5.lines-parsed-independently")
+    # I5: the parser gets the whole listing text, once, unmodified (both routes)
+    from ..matchflow import run_sequence
+    Iw = match_interp(ctx.p)
+    for ft, want in (("assembly", "open("), ("binary", "subprocess.run(")):
+        bad = set()
+        runs = run_sequence(Iw, [{"config": {}, "file_type": ft}])
+        for path, facts, results in runs:
+            pcs = path.run.user.get("parse_calls", [])
+            exprs = [Iw.expr_of(t) for t, _, _ in pcs]
+            if len(pcs) != 1 or not (exprs[0].startswith(want) and exprs[0].endswith((".read()", ".stdout"))):
+                bad.add(str(exprs)[:100])
+        ctx.check(bool(runs) and not bad, "C16.I5.whole-text-parsed-once", f"ComposableProducer.process_file[{ft}]", ";".join(sorted(bad))[:200],
+                  "the parser receives the complete listing text in one piece (no chunking, slicing or filtering of the text)")
+    # I6: nothing in the parser keeps state between lines or runs
+    from ..census import global_state
+    for kind, name, where, detail in global_state(ctx.p):
+        if "stringify_asm" in where or "stringify_asm" in name:
+            ctx.fail("C16.I6.parser-is-stateless", name, f"{kind}: {detail}"[:160], f"{kind} {name} in the parser package", where=where)
+    ctx.ok("C16.I6.parser-is-stateless", "src/jasm/stringify_asm", "census of module/class level state and memoising decorators")
     # I4b RemoveEmptyInstructions always first, and its literal is the one the parser writes
     Im = match_interp(ctx.p)
     n = 0
